@@ -505,9 +505,14 @@ func (c *FmtCodec) writeSegmentsATXHeading(segs []segment) {
 }
 
 func (c *FmtCodec) writeSegmentsParagraph(segs []segment) {
+	// Index of a segNewLine that was written as "&NewLine;" by the segHTML
+	// branch below instead of as a line break.
+	escapedNewLine := -1
 	for i := 0; i < len(segs); i++ {
 		seg := segs[i]
-		startOfLine := i == 0 || (segs[i-1].typ == segNewLine && (i-1 == 0 || segs[i-2].typ != segNewLine))
+		// A newline is only written as a line break if it is neither the first
+		// segment nor preceded by another newline (see the segNewLine branch).
+		startOfLine := i == 0 || (segs[i-1].typ == segNewLine && i-1 > 0 && segs[i-2].typ != segNewLine && escapedNewLine != i-1)
 		endOfLine := i == len(segs)-1 || segs[i+1].typ == segNewLine
 		switch seg.typ {
 		case segText:
@@ -544,6 +549,7 @@ func (c *FmtCodec) writeSegmentsParagraph(segs []segment) {
 					c.write(lines[0])
 					c.write("&NewLine;")
 					i++
+					escapedNewLine = i
 					continue
 				}
 			}
